@@ -22,6 +22,9 @@ protocol model `PikaVerif.Bulk` (field `p`; every protocol effect is obtained by
 * **`do_work_chunk`**: `bulk.chunk` computes `[i_begin, i_end)` with the *generated*
   `chunkRange`; the index loop makes one `call` per index with the value pack read from `ts`;
   a call returns or throws.
+* **decision**: the participant whose decrement reached 0 reads `exception_thrown` *after* the
+  decrement (`bulk.decide`, logged in the branch taken): accepted only with the value the flag
+  has once every participant has decremented.
 * **exceptions / join counter / completion**: as in `Bulk`; additionally the exception slot
   holds the index of the call whose exception won the `exchange`, the completion carries the
   value pack read from `ts` (value) or the stored exception (error).
@@ -57,6 +60,9 @@ inductive Ev where
   | throw (k : Nat)
   | exc (k : Nat)
   | dec (k : Nat) (last : Bool)
+  /-- `finish()` of the participant whose decrement reached 0 reads `exception_thrown` (after
+      the decrement) and takes the `set_error` (`err = true`) / `set_value` branch -/
+  | decide (k : Nat) (err : Bool)
   /-- the receiver is signalled: `tok` = forwarded value pack / the exception -/
   | sig (err : Bool) (tok : Int)
   deriving Repr
@@ -246,6 +252,11 @@ def step (s : St) : Ev → Option St
           | none => none
         else none
       | _ => none
+    else none
+  | .decide k err =>
+    -- the read follows the last decrement: every participant has decremented (`outcome` is set
+    -- by the decrement that reached 0), so the flag read equals the flag at that decrement
+    if s.ph = 1 ∧ k < s.w ∧ s.p.pc k = .decd ∧ s.p.outcome = some err ∧ s.p.signals = 0 then some s
     else none
   | .sig err tok =>
     if s.ph = 1 then
